@@ -233,6 +233,33 @@ def judge(w, case):
             open(w.p("layers", "store.toml"), "w").write(f"[metadata]\n{body}")
         else:
             open(w.p("bp", "buildpack.toml"), "w").write(VALID_BP_TOML + f"\n[metadata]\n{body}")
+        if case.get("via") == "fifo":
+            # the same document, but the path is a FIFO (what `<(...)` or a streaming platform hands
+            # over): its reported size (0) says nothing about its content
+            target = {"store": w.p("layers", "store.toml"), "plan": w.p("bp_plan.toml"), "descriptor": w.p("bp", "buildpack.toml")}[where]
+            data = open(target, "rb").read()
+            os.unlink(target)
+            os.mkfifo(target)
+
+            def feed():
+                import time
+                end = time.time() + 30
+                while time.time() < end:
+                    try:
+                        fd = os.open(target, os.O_WRONLY | os.O_NONBLOCK)
+                    except OSError:
+                        time.sleep(0.005)
+                        continue
+                    try:
+                        os.set_blocking(fd, True)
+                        os.write(fd, data)
+                    except OSError:
+                        pass
+                    finally:
+                        os.close(fd)
+                    return
+            import threading
+            threading.Thread(target=feed, daemon=True).start()
     elif kind == "store-absent":
         pass
     elif kind == "store-empty-metadata":
@@ -435,6 +462,9 @@ def cases(thorough):
             out.append({"kind": "toml", "where": where, "value": tuple_to_json(val)})
     for n in (0, 2):
         out.append({"kind": "toml", "where": "plan", "entries": n, "value": tuple_to_json(("s", "x"))})
+    for where in ("plan", "store"):
+        for val in (("s", "x"), ("a", [("i", 1), ("s", "y" * 70000)])):
+            out.append({"kind": "toml", "where": where, "value": tuple_to_json(val), "via": "fifo"})
     out.append({"kind": "store-absent"})
     # a store with an empty metadata table is a store (not "no store"); a zero-length store.toml lacks the mandatory table
     out.append({"kind": "store-empty-metadata"})
@@ -492,7 +522,7 @@ def run(ctx):
     res.cov("distinct_nontrivial", nontrivial)
     res.cov("distinct_outcomes", sorted(outcomes))
     res.cov("determinism_replays", 6)
-    res.cov("rule", "platform env: all sets of <=2 (thorough: <=3 over a reduced kind set) entries with distinct names over 8 names (dots, leading dots, space, '=', non-ASCII, non-UTF-8) x 9 kinds (4 file contents, directory, symlink to file/dir, dangling, non-UTF-8 content); env/platform dir missing; values of 2^k-1, 2^k, 2^k+1 bytes for k in {12,16,17,20}; target: every present/absent x value combination of the five CNB_TARGET_* variables (quick: <=2 non-default) over values {linux, '', 'a b', non-UTF-8, windows, a value in double quotes, a value padded with white space}; TOML: every value kind (18 strings, ints incl. extremes, floats incl. inf/nan/-0, bools, 4 datetime kinds, arrays/tables depth 2) in plan entry metadata, store and descriptor metadata; all through the real detect/build runtime; directory spellings: layers / platform / buildpack directory each given plain, through a symlink, relative to the working directory, or with redundant segments (4^3 build + 4^2 detect cases), the context must name them as supplied and still find env, store and descriptor; in-process sequences: every sequence of 2..3 (thorough: ..4) programmatic libcnb_runtime_detect/libcnb_runtime_build calls in ONE process over 12 symbols (2 worlds x 3 content variants of descriptor, platform env, plan, store and target variables, one of them with the descriptor removed, x 2 phases), each step (result and context handed to the buildpack code; the files it leaves are compared by C05) compared with the same invocation run alone in a fresh process. non-trivial = case with at least one non-default input")
+    res.cov("rule", "platform env: all sets of <=2 (thorough: <=3 over a reduced kind set) entries with distinct names over 8 names (dots, leading dots, space, '=', non-ASCII, non-UTF-8) x 9 kinds (4 file contents, directory, symlink to file/dir, dangling, non-UTF-8 content); env/platform dir missing; values of 2^k-1, 2^k, 2^k+1 bytes for k in {12,16,17,20}; target: every present/absent x value combination of the five CNB_TARGET_* variables (quick: <=2 non-default) over values {linux, '', 'a b', non-UTF-8, windows, a value in double quotes, a value padded with white space}; TOML: every value kind (18 strings, ints incl. extremes, floats incl. inf/nan/-0, bools, 4 datetime kinds, arrays/tables depth 2) in plan entry metadata, store and descriptor metadata, and the plan and the store handed over as a FIFO (reported size 0; the descriptor is legitimately read more than once; one short and one 70 kB document); all through the real detect/build runtime; directory spellings: layers / platform / buildpack directory each given plain, through a symlink, relative to the working directory, or with redundant segments (4^3 build + 4^2 detect cases), the context must name them as supplied and still find env, store and descriptor; in-process sequences: every sequence of 2..3 (thorough: ..4) programmatic libcnb_runtime_detect/libcnb_runtime_build calls in ONE process over 12 symbols (2 worlds x 3 content variants of descriptor, platform env, plan, store and target variables, one of them with the descriptor removed, x 2 phases), each step (result and context handed to the buildpack code; the files it leaves are compared by C05) compared with the same invocation run alone in a fresh process. non-trivial = case with at least one non-default input")
     res.cov("exhaustive", True)
     res.sample(cs[3])
     res.sample(cs[len(cs) // 2])
